@@ -18,15 +18,18 @@ ACT_FOLDER = "game/agent/actions/folder.py"
 
 # the methods whose logic the model transcribes (docstrings and sys_log calls removed before comparison)
 TRANSCRIBED = {
-    ("FileSystem", FS): ["__init__", "setup_for_episode", "create_folder", "create_file", "get_file",
-                         "access_file", "pre_timestep", "apply_timestep", "describe_state",
-                         "copy_file", "move_file", "delete_file_by_id", "delete_folder_by_id", "get_folder_by_id", "scan"],
+    # round 7: setup_for_episode, create_folder, create_file, get_file, pre_timestep are TRANSLATED (fsxlate, Props/C15Create.lean);
+    # Folder.pre_timestep / File.pre_timestep are checked to be structurally inert by fsxlate._check_inert_methods
+    # second batch: copy_file, delete_file_by_id, delete_folder_by_id, get_folder_by_id, Folder.get_file_by_id / remove_file_by_id / remove_all_files
+    # third batch: FileSystem.apply_timestep / Folder.apply_timestep translated; Folder._scan_timestep / scan / repair / corrupt checked inert
+    # fourth batch: move_file translated too — no method of the four classes is under the textual tie any more (the request handlers
+    # and validators still are: fsHandlers / validators)
+    ("FileSystem", FS): [],
     # restore_file and add_file are tied semantically instead (extract/fsxlate.py, C15_gen_restore_file / C15_gen_add_file)
-    ("Folder", FOLDER): ["get_file_by_id", "remove_file_by_id", "pre_timestep", "_scan_timestep", "scan", "repair", "corrupt", "remove_all_files",
-                         "apply_timestep", "describe_state"],
+    ("Folder", FOLDER): [],
     # File.restore/delete/scan/repair/corrupt/check_hash and Folder.restore/delete/check_hash are translated onto records that
     # carry health (extract/fsxlate.py, C15_gen_file_methods / C15_gen_folder_methods)
-    ("File", FILE): ["pre_timestep"],
+    ("File", FILE): [],
 }
 GUARDED = {("Folder", FOLDER): ["scan", "repair", "corrupt", "check_hash"], ("File", FILE): ["scan", "repair", "corrupt", "check_hash"]}
 
@@ -329,7 +332,9 @@ def emit() -> str:
     irm = find_method(fs_c, "_init_request_manager")
     L.append("/-- the local handler functions of `FileSystem._init_request_manager`, cleaned -/")
     L.append("def fsHandlers : List (String × String) := [")
-    L.append(",\n".join(f"  ({lean_str(n.name)}, {lean_str(cleaned(n))})" for n in irm.body if isinstance(n, ast.FunctionDef)))
+    from harness.extract.fsxlate import HANDLERS as _XH, VALIDATORS as _XV
+    xh = {h[0] for h in _XH}                          # translated (fsxlate, C15_gen_handlers): no textual pin
+    L.append(",\n".join(f"  ({lean_str(n.name)}, {lean_str(cleaned(n))})" for n in irm.body if isinstance(n, ast.FunctionDef) and n.name not in xh))
     L.append("]")
 
     # the full request table
@@ -345,6 +350,8 @@ def emit() -> str:
     L.append("def validators : List (String × String) := [")
     rows = [(f"FileSystem.{v}", _validator_expr(fs_c, v)) for v in ("_FolderExistsValidator", "_FolderNotDeletedValidator", "_FileExistsValidator")]
     rows += [(f"Folder.{v}", _validator_expr(fo_c, v)) for v in ("_FileExistsValidator", "_FileNotDeletedValidator")]
+    xv = {f"{v[1]}.{v[2]}" for v in _XV}              # translated (fsxlate, C15_gen_validators): no textual pin
+    rows = [r for r in rows if r[0] not in xv]
     L.append(",\n".join(f"  ({lean_str(a)}, {lean_str(b)})" for a, b in rows))
     L.append("]")
     # how the validator attributes are bound
